@@ -114,6 +114,15 @@ func (s *StrategyChoiceModule) set(interest *spec.Interest, pitToken []byte, inF
 		return
 	}
 
+	if len(params.Strategy.Name) > len(s.strategyPrefix)+2 {
+		// Strategies take no parameters: nothing may follow the version component
+		core.LogWarn(s, "Unsupported parameters in Strategy=", params.Strategy,
+			" in ControlParameters for Interest=", interest.Name())
+		response = makeControlResponse(404, "Strategy parameters are not supported", nil)
+		s.manager.sendResponse(response, interest, pitToken, inFace)
+		return
+	}
+
 	// Add/verify version information for strategy
 	strategyVersion := availableVersions[0]
 	for _, version := range availableVersions {
@@ -121,18 +130,18 @@ func (s *StrategyChoiceModule) set(interest *spec.Interest, pitToken []byte, inF
 			strategyVersion = version
 		}
 	}
-	if len(params.Strategy.Name) > len(s.strategyPrefix)+1 &&
-		params.Strategy.Name[len(s.strategyPrefix)+1].Typ != enc.TypeVersionNameComponent {
-		core.LogWarn(s, "Unknown Version=", params.Strategy.Name[len(s.strategyPrefix)+1],
-			" for Strategy=", params.Strategy, " in ControlParameters for Interest=", interest.Name())
-		response = makeControlResponse(404, "Unknown strategy version", nil)
-		s.manager.sendResponse(response, interest, pitToken, inFace)
-		return
-	} else if len(params.Strategy.Name) > len(s.strategyPrefix)+1 {
-		strategyVersionBytes := params.Strategy.Name[len(s.strategyPrefix)+1].Val
-		strategyVersion, _, err := enc.ParseNat(strategyVersionBytes)
+	if len(params.Strategy.Name) > len(s.strategyPrefix)+1 {
+		versionComponent := params.Strategy.Name[len(s.strategyPrefix)+1]
+		if versionComponent.Typ != enc.TypeVersionNameComponent {
+			core.LogWarn(s, "Unknown Version=", versionComponent,
+				" for Strategy=", params.Strategy, " in ControlParameters for Interest=", interest.Name())
+			response = makeControlResponse(404, "Unknown strategy version", nil)
+			s.manager.sendResponse(response, interest, pitToken, inFace)
+			return
+		}
+		requestedVersion, _, err := enc.ParseNat(versionComponent.Val)
 		if err != nil {
-			core.LogWarn(s, "Unknown Version=", params.Strategy.Name[len(s.strategyPrefix)+1],
+			core.LogWarn(s, "Unknown Version=", versionComponent,
 				" for Strategy=", params.Strategy, " in ControlParameters for Interest=", interest.Name())
 			response = makeControlResponse(404, "Unknown strategy version", nil)
 			s.manager.sendResponse(response, interest, pitToken, inFace)
@@ -140,21 +149,26 @@ func (s *StrategyChoiceModule) set(interest *spec.Interest, pitToken []byte, inF
 		}
 		foundMatchingVersion := false
 		for _, version := range availableVersions {
-			if version == uint64(strategyVersion) {
+			if version == uint64(requestedVersion) {
 				foundMatchingVersion = true
 			}
 		}
 		if !foundMatchingVersion {
-			core.LogWarn(s, "Unknown Version=", strategyVersion, " for Strategy=", params.Strategy,
+			core.LogWarn(s, "Unknown Version=", uint64(requestedVersion), " for Strategy=", params.Strategy,
 				" in ControlParameters for Interest=", interest.Name())
 			response = makeControlResponse(404, "Unknown strategy version", nil)
 			s.manager.sendResponse(response, interest, pitToken, inFace)
 			return
 		}
-	} else {
-		// Add missing version information to strategy name
-		params.Strategy.Name = append(params.Strategy.Name, enc.NewVersionComponent(strategyVersion))
+		strategyVersion = uint64(requestedVersion)
 	}
+
+	// Install the canonical name of the strategy instance (<prefix>/<strategy>/<version, shortest form>): it is
+	// the name under which the forwarding threads index their strategies
+	canonicalStrategy := make(enc.Name, 0, len(s.strategyPrefix)+2)
+	canonicalStrategy = append(canonicalStrategy, params.Strategy.Name[:len(s.strategyPrefix)+1]...)
+	canonicalStrategy = append(canonicalStrategy, enc.NewVersionComponent(strategyVersion))
+	params.Strategy.Name = canonicalStrategy
 	table.FibStrategyTable.SetStrategyEnc(params.Name, params.Strategy.Name)
 
 	core.LogInfo(s, "Set strategy for Name=", params.Name, " to Strategy=", params.Strategy)
